@@ -215,6 +215,26 @@ def handle (op : String) (args : List String) : Option String :=
       let e ← endian? e; let sz ← sz.toNat?; let bs ← parseHex h; let base ← base.toNat?
       let index ← index.toNat?
       pure ((Indexed.getAddress e sz bs base index).render toString)
+  | "attr", [e, f, asz, sob, ab, st, lst, so, ad, sup, kind, val, _] => do
+      let e ← endian? e; let f ← format? f; let asz ← asz.toNat?; let sob ← sob.toNat?; let ab ← ab.toNat?
+      let st ← parseHex st; let lst ← parseHex lst; let so ← parseHex so; let ad ← parseHex ad
+      let sup ← if sup == "~" then some none else (parseHex sup).map some
+      let av : Indexed.AttrVal ← match kind with
+        | "string" => (parseHex val).map .string
+        | "strp" => val.toNat?.map .debugStrRef
+        | "strpsup" => val.toNat?.map .debugStrRefSup
+        | "linestrp" => val.toNat?.map .debugLineStrRef
+        | "strx" => val.toNat?.map .debugStrOffsetsIndex
+        | "addr" => val.toNat?.map .addr
+        | "addrx" => val.toNat?.map .debugAddrIndex
+        | "udata" => some .other
+        | "flag" => some .other
+        | _ => none
+      let c : Indexed.Ctx := {
+        endian := e, format := f, addressSize := asz, strOffsetsBase := sob, addrBase := ab,
+        debugStr := st, debugLineStr := lst, debugStrOffsets := so, debugAddr := ad,
+        supDebugStr := sup }
+      pure s!"ok s={outS toHex (Indexed.attrString c av)}|a={outS (optS toString) (Indexed.attrAddress c av)}"
   | "djb-ascii", [h] => do
       let bs ← parseHex h
       -- `case_folding_djb_hash` restricted to ASCII input (`to_ascii_lowercase`, then `hash*33 + byte`)
